@@ -143,6 +143,10 @@ def locate_slice(values, start, stop, step, issorted=False):
             istart = np.searchsorted(values, start, side=left)
 
         if step is not None and step < 0:
+            if istart == 0:
+                # no label at or before `start` in traversal order: empty selection
+                # (istart - 1 == -1 would wrap around to the last element)
+                return 0, 0
             istart -= 1
     else:
         istart = None
